@@ -53,6 +53,7 @@ type AVal struct {
 	Const string // AStr with IsConst
 	IsConst bool
 	NonNil  bool // AUnknown/APtr: known not to be nil (errors.New, fmt.Errorf, &x)
+	Fn      *ssa.Function // AUnknown: the function this value is (a function value)
 	Elems []AVal // AAgg, ATuple
 }
 
@@ -724,8 +725,12 @@ var stdFirst = map[string]bool{"archive": true, "bufio": true, "bytes": true, "c
 func RepoFunc(fn *ssa.Function) bool { return repoFunc(fn) }
 
 func repoFunc(fn *ssa.Function) bool {
-	if fn == nil || fn.Pkg == nil {
+	if fn == nil {
 		return false
+	}
+	if fn.Pkg == nil {
+		// thunks, wrappers and bound-method closures only forward to the method they stand for
+		return fn.Synthetic != "" && len(fn.Blocks) > 0 && (strings.Contains(fn.Synthetic, "thunk") || strings.Contains(fn.Synthetic, "wrapper") || strings.Contains(fn.Synthetic, "bound"))
 	}
 	p := fn.Pkg.Pkg.Path()
 	first := p
@@ -1519,7 +1524,7 @@ func (ex *Exec) val(s *astate, fr *aframe, v ssa.Value) AVal {
 	case *ssa.Global:
 		return AVal{K: APtr, Path: "global:" + x.Pkg.Pkg.Path() + "." + x.Name()}
 	case *ssa.Function:
-		return AVal{K: AUnknown, Path: "func:" + FuncName(x)}
+		return AVal{K: AUnknown, Path: "func:" + FuncName(x), Fn: x, NonNil: true}
 	case *ssa.Builtin:
 		return AVal{K: AUnknown, Path: "builtin." + x.Name()}
 	case *ssa.FreeVar:
@@ -2476,6 +2481,13 @@ func (ex *Exec) call(s *astate, fr *aframe, x *ssa.Call) (bool, error) {
 	}
 	name := CalleeName(&x.Call)
 	callee := x.Call.StaticCallee()
+	if callee == nil && !x.Call.IsInvoke() {
+		// a call through a function value the path has pinned down (a table of handlers)
+		if fv := ex.val(s, fr, x.Call.Value); fv.Fn != nil {
+			callee = fv.Fn
+			name = FuncName(callee)
+		}
+	}
 	if mc, ok := x.Call.Value.(*ssa.MakeClosure); ok {
 		_ = mc
 		callee = nil
